@@ -44,3 +44,34 @@ Example C14_example :
   hwversion_unmarshal [2; 0] = Ok (2, 0) /\ productcode_unmarshal [32; 9; 77; 84; 105; 32; 51; 13; 10] = [77; 84; 105; 32; 51] /\
   can_unmarshal [0; 0; 1] = Err 1.
 Proof. repeat split. Qed.
+
+(* The decoders ARE the code: DeviceID.UnmarshalBinary (the switch on the payload length, the last four bytes of an
+   eight-byte identifier) and CANConfig.UnmarshalBinary as regenerated from informationmessages.go / canconfig.go
+   (Gen/StructFns.v), and CANOutputConfiguration.UnmarshalBinary with its slice aliasing (Gen/CanFns.v), are the reference
+   decoders above - for every payload; none of them panics, and the CAN decoder leaves the payload it was given unchanged. *)
+Require Import Base.GoBytes Base.GoConf Gen.StructFns Gen.CanFns Tie.StructAgree Tie.CanAgree.
+Theorem C14_decoders_model_is_the_source :
+  (forall data st, wf_bytes data ->
+     g_DeviceID_UnmarshalBinary data st =
+     match deviceid_unmarshal data with Ok v => Val (None, Z.of_N v) | Err _ => Val (Some 1%Z, st) | _ => Pan end) /\
+  (forall data st, wf_bytes data ->
+     g_CANConfig_UnmarshalBinary data st =
+     match can_unmarshal data with Ok (e, b) => Val (None, (e, b)) | Err _ => Val (Some 2%Z, st) | _ => Pan end) /\
+  (forall bk n data, wf_bytes data -> (0 <= n <= Z.of_nat (length bk))%Z ->
+     exists o', g_CANOutputConfiguration_UnmarshalBinary (bk, n) data = Val (None, o', data) /\
+                firstn (Z.to_nat (snd o')) (fst o') = map conv (canout_unmarshal data) /\
+                (0 <= snd o' <= Z.of_nat (length (fst o')))%Z).
+Proof. split; [exact deviceid_unmarshal_agrees|]. split; [exact canconfig_unmarshal_agrees|exact can_unmarshal_agrees]. Qed.
+Print Assumptions C14_decoders_model_is_the_source.
+
+(* and the two text results: HWVersion.UnmarshalBinary (exactly two bytes, rendered "%d.%d" of those two bytes) and
+   ProductCode.UnmarshalBinary (strings.TrimSpace of the payload read as ASCII text) as regenerated from the source *)
+From Coq Require Import String.
+Theorem C14_text_decoders_model_is_the_source :
+  (forall data st, wf_bytes data ->
+     g_HWVersion_UnmarshalBinary data st =
+     match hwversion_unmarshal data with
+     | Ok (a, b) => Val (None, GFmt "%d.%d"%string [Z.of_N a; Z.of_N b]) | Err _ => Val (Some 1%Z, st) | _ => Pan end) /\
+  (forall data st, g_ProductCode_UnmarshalBinary data st = Val (None, GText (productcode_unmarshal data))).
+Proof. split; [exact hwversion_unmarshal_agrees|exact productcode_unmarshal_agrees]. Qed.
+Print Assumptions C14_text_decoders_model_is_the_source.
